@@ -1,10 +1,11 @@
 use chrono::Duration;
 use nom::branch::alt;
 use nom::bytes::complete::tag;
-use nom::character::complete::char;
+use nom::character::complete::{char, digit1};
 use nom::combinator::{map, opt};
+use nom::error::{Error, ErrorKind};
 use nom::multi::many1;
-use nom::number::complete::double;
+use nom::sequence::preceded;
 use nom::IResult;
 
 // Constants representing time units in nanoseconds
@@ -36,9 +37,17 @@ pub fn parse_duration(i: &str) -> IResult<&str, Duration> {
     if i == "0" {
         return Ok(("", Duration::zero()));
     }
-    let (i, duration) = many1(parse_number_unit)(i)
-        .map(|(i, d)| (i, d.iter().fold(Duration::zero(), |acc, next| acc + *next)))?;
-    Ok((i, duration * if neg.is_some() { -1 } else { 1 }))
+    let (i, terms) = many1(parse_number_unit)(i)?;
+    // the terms are summed exactly; the sign applies to the whole sum
+    let total = terms
+        .iter()
+        .try_fold(0i128, |acc, next| acc.checked_add(*next))
+        .map(|total| if neg.is_some() { -total } else { total })
+        .and_then(|total| i64::try_from(total).ok());
+    match total {
+        Some(nanos) => Ok((i, Duration::nanoseconds(nanos))),
+        None => Err(nom::Err::Failure(Error::new(i, ErrorKind::TooLarge))),
+    }
 }
 
 enum Unit {
@@ -63,11 +72,15 @@ impl Unit {
     }
 }
 
-fn parse_number_unit(i: &str) -> IResult<&str, Duration> {
-    let (i, num) = double(i)?;
+/// Parses one `Number Unit` term into its exact count of nanoseconds.
+fn parse_number_unit(i: &str) -> IResult<&str, i128> {
+    let (i, whole) = digit1(i)?;
+    let (i, fraction) = opt(preceded(char('.'), digit1))(i)?;
     let (i, unit) = parse_unit(i)?;
-    let duration = to_duration(num, unit);
-    Ok((i, duration))
+    match to_nanos(whole, fraction.unwrap_or(""), unit) {
+        Some(nanos) => Ok((i, nanos)),
+        None => Err(nom::Err::Failure(Error::new(i, ErrorKind::TooLarge))),
+    }
 }
 
 fn parse_negative(i: &str) -> IResult<&str, ()> {
@@ -86,8 +99,25 @@ fn parse_unit(i: &str) -> IResult<&str, Unit> {
     ))(i)
 }
 
-fn to_duration(num: f64, unit: Unit) -> Duration {
-    Duration::nanoseconds((num * unit.nanos() as f64).trunc() as i64)
+/// Scales the decimal number `whole.fraction` by the unit in integer arithmetic. A part of the
+/// fraction below one nanosecond is dropped; `None` means the count does not fit.
+fn to_nanos(whole: &str, fraction: &str, unit: Unit) -> Option<i128> {
+    let per_unit = unit.nanos() as i128;
+    let mut nanos: i128 = 0;
+    for digit in whole.bytes() {
+        nanos = nanos
+            .checked_mul(10)?
+            .checked_add((digit - b'0') as i128)?;
+    }
+    nanos = nanos.checked_mul(per_unit)?;
+    // digits beyond the 24th cannot reach a nanosecond even for hours
+    let mut numerator: i128 = 0;
+    let mut denominator: i128 = 1;
+    for digit in fraction.bytes().take(24) {
+        numerator = numerator * 10 + (digit - b'0') as i128;
+        denominator *= 10;
+    }
+    nanos.checked_add(numerator * per_unit / denominator)
 }
 
 /// Formats a [`Duration`] into a string. String returns a string representing the
